@@ -27,7 +27,7 @@ def fault_jobs(rng, nh, thorough, per_op=40):
     """fault-free recordings of nh histories, then one job per (operation, I/O call index[, after-effect])"""
     hist = []
     for i in range(nh):
-        g = gen.Gen(rng.randrange(1 << 30), focus={"insert": 5, "insert_multiple": 3, "remove": 4, "update": 4, "update_all": 1, "drop": 2, "remove_all": 2, "fail": 0.0, "bad": 0.0}, handles=0.1)
+        g = gen.Gen(rng.randrange(1 << 30), focus={"insert": 5, "insert_multiple": 3, "remove": 4, "update": 4, "update_all": 1, "drop": 2, "remove_all": 2, "reopen": 0, "fail": 0.0, "bad": 0.0}, handles=0.1)
         hist.append((i % 2, g.history(g.r.choice([6, 9, 12]), p_read=0.25), g))
     base = traces.record_all([("h%d" % i, "csv", ai, ops, [], 3, 3, {"io": True}) for i, (ai, ops, g) in enumerate(hist)])
     jobs = []
